@@ -740,35 +740,47 @@ Qed.
 Lemma platform_pre_nil : platform_pre = [].
 Proof. reflexivity. Qed.
 
-Definition kinds_eqb (e : berr) (k : nat) : bool := nats_eq (b_kinds e) [k].
 
 Lemma b_kinds_erase e : b_kinds (erase e) = b_kinds e.
 Proof. unfold b_kinds. apply filter_ext. intro k. apply b_is_erase_l. Qed.
+
+Definition shapes (k : nat) : list berr := [BK k; BWrap [] (BK k); BWrap [] (BWrap [] (BK k))].
 
 (* the certificate, computed on CLOSED terms (texts erased): for every converter and every kind it is expected to leave
    alone, the sentinel and library errors of one or two wrappers pass every pre-step and the switch unchanged *)
 Definition pass_cert : bool :=
   forallb (fun conv => forallb (fun k =>
-     forallb (fun e0 => conv_pass (fst (conv_table conv)) (snd (conv_table conv)) e0 && kinds_eqb e0 k)
-             [BK k; BWrap [] (BK k); BWrap [] (BWrap [] (BK k))])
+     forallb (fun e0 => conv_pass (fst (conv_table conv)) (snd (conv_table conv)) e0 && nats_eq (b_kinds e0) [k])
+             (shapes k))
      (expected_pass conv)) [0; 1; 2; 3].
 
 Lemma pass_cert_ok : pass_cert = true.
 Proof. vm_compute. reflexivity. Qed.
+
+Lemma pass_cert_at conv k e0 : In conv [0; 1; 2; 3] -> In k (expected_pass conv) -> In e0 (shapes k) ->
+  conv_pass (fst (conv_table conv)) (snd (conv_table conv)) e0 = true /\ nats_eq (b_kinds e0) [k] = true.
+Proof.
+  intros Ic Ik Ie. pose proof pass_cert_ok as H. unfold pass_cert in H.
+  pose proof (proj1 (forallb_forall _ _) H conv Ic) as H1. cbv beta in H1.
+  pose proof (proj1 (forallb_forall _ _) H1 k Ik) as H2. cbv beta in H2.
+  pose proof (proj1 (forallb_forall _ _) H2 e0 Ie) as H3. cbv beta in H3.
+  apply andb_true_iff in H3. exact H3.
+Qed.
+
+Lemma pass_shape conv k e : In conv [0; 1; 2; 3] -> In k (expected_pass conv) -> In (erase e) (shapes k) ->
+  res_kinds (conv_by conv e) = Some [k].
+Proof.
+  intros Ic Ik Ie. destruct (pass_cert_at conv k (erase e) Ic Ik Ie) as [H1 H2].
+  rewrite (conv_by_table conv e Ic platform_pre_nil). rewrite (conv_pass_sound _ _ e H1).
+  unfold res_kinds. f_equal. rewrite <- (b_kinds_erase e). apply nats_eq_eq. exact H2.
+Qed.
 
 Lemma kind_preserved_for_library_errors_l conv k m m' : In conv [0; 1; 2; 3] -> In k (expected_pass conv) ->
   res_kinds (conv_by conv (BK k)) = Some [k] /\
   res_kinds (conv_by conv (BWrap m (BK k))) = Some [k] /\
   res_kinds (conv_by conv (BWrap m' (BWrap m (BK k)))) = Some [k].
 Proof.
-  intros Ic Ik. pose proof pass_cert_ok as H. unfold pass_cert in H. rewrite forallb_forall in H. specialize (H conv Ic).
-  rewrite forallb_forall in H. specialize (H k Ik). rewrite forallb_forall in H.
-  assert (G : forall e, In (erase e) [BK k; BWrap [] (BK k); BWrap [] (BWrap [] (BK k))] ->
-              res_kinds (conv_by conv e) = Some [k]).
-  { intros e I. specialize (H _ I). apply andb_true_iff in H. destruct H as [H1 H2].
-    rewrite (conv_by_table conv e Ic platform_pre_nil), (conv_pass_sound _ _ e H1). simpl. f_equal.
-    rewrite <- b_kinds_erase. apply nats_eq_eq. exact H2. }
-  repeat split; apply G; simpl; auto.
+  intros Ic Ik. split; [|split]; apply pass_shape; auto; unfold shapes; cbn [erase]; [left | right; left | right; right; left]; reflexivity.
 Qed.
 
 (* without the restriction to the expected kinds the statement is false of the code as it is: platform.ConvertError
